@@ -27,6 +27,10 @@ CLAIMED = {
    text='Coq theorems (every order >= 2, cell sizes, bond ranks, open/cyclic): the SLIM block pattern denotes sum_i S_i + sum_i L_i.M_{i+1} + cyclic term; elementary reaction matrices have zero column sums; Ulam 2-D entries are transition counts. slim_mme (incl. super-core construction and SVD split, via tape) and ulam_2d are tied to /repo by exact differential execution; side check against a state-enumeration generator and histograms (2-D and 3-D).',
    note='Trusted: Coq kernel, harness, SVD value conjunct (L.M = super-core), numpy.unique as oracle; ulam_3d and off-diagonal non-negativity are side-check only; rounding not modelled.',
    technique='Coq proof (column-vector invariant over the block pattern) + oracle-tape correspondence', design='6 C12'),
+ 'C05': dict(
+   text='Coq theorems: a chain of left-(right-)orthonormal cores has orthonormal columns (rows) for every order/rank vector (composition of isometries); u*diag(s)*v reproduces the decomposed cores under the SVD value conjunct; X = U S^-1 V (what pinv builds) satisfies the four Penrose equations, i.e. X^H = A^+. TT.svd and TT.pinv (all split indices, flags, thresholds, max ranks) are modelled on top of the C03 sweeps and tied to /repo by oracle-tape differential execution; side check against numpy.linalg.svd/pinv incl. rank-deficient unfoldings and input-unchanged.',
+   note='Trusted: Coq kernel, harness, SVD oracle hypotheses, uniqueness of singular values and of the Penrose solution (classical, not re-proved); zero tensors with threshold>0 excluded (finding F14).',
+   technique='Coq proof (isometry composition, Penrose algebra) + oracle-tape correspondence', design='6 C05'),
 }
 NOT_YET = {}
 ALL = ['C%02d' % i for i in range(1, 21)]
